@@ -2078,7 +2078,12 @@ Queue<ItemType>::SwapContentsAux(Queue<ItemType> & largeThat)  // note:  can't b
    // First, copy over our (small) contents to his small-buffer
    const uint32 ni = GetNumItems();
    MASSERT((ni <= ARRAYITEMS(largeThat._smallQueue)), "Queue::SwapContentsAux():  ni is too large");  // only here to reassure Coverity and myself
-   for (uint32 i=0; i<ni; i++) largeThat._smallQueue[i] = QQ_PlunderItem((*this)[i]);
+   for (uint32 i=0; i<ni; i++)
+   {
+      ItemType & from = (*this)[i];
+      largeThat._smallQueue[i] = QQ_PlunderItem(from);
+      if (IsPerItemClearNecessary()) from = GetDefaultItem();  // std::move() may only have copied:  don't keep the original alive in our _smallQueue
+   }
 
    // Now adopt his dynamic buffer
    _queue     = largeThat._queue;
